@@ -3,6 +3,7 @@
 mod c02x;
 mod c04;
 mod c05;
+mod c05bt;
 mod c06;
 mod c08;
 mod c09;
@@ -46,6 +47,7 @@ fn dispatch(cmd: &str) -> Option<RunFn> {
 		"c17" => c17::run,
 		"c20" => c20::run,
 		"c05" => c05::run,
+		"c05bt" => c05bt::run,
 		"c04" => c04::run,
 		"c09" => c09::run,
 		"c15" => c15::run,
